@@ -565,7 +565,7 @@ import symtable
 NAME_PAIRS = [("myVar", "my_var"), ("myVar", "MY_VAR"), ("myVar", "my_Var"), ("MyVar", "myVar"), ("_myVar", "myVar"),
               ("Id", "id"), ("Class_", "class_"), ("var_1", "var_2"), ("a", "b"), ("x1", "X1"), ("_1x", "x"),
               ("é", "e"), ("naïve", "na_ve"), ("ABc", "a_bc"), ("a_b", "AB"), ("HTTPServer", "http_server"),
-              ("_", "x"), ("__t2", "_t2"), ("__x__", "x")]
+              ("_", "x"), ("__t2", "_t2"), ("__x__", "x"), ("sorted", "srt"), ("len", "n")]
 
 # closed programs; {A} is bound in the way the template's name says, {B} is the adversary
 TEMPLATES = {
@@ -607,6 +607,8 @@ TEMPLATES = {
     "ignore_in_renamed_func": "def {A}(values):\n    return sum(values) + 1  # pyrefact: ignore\ndef report():\n    return {A}([1, 2, 3]) * 2\nprint(report(), {A}([4]))\n",
     "ignore_on_class_use": "class {A}:\n    size = 4\ndef make():\n    return {A}()  # pyrefact: ignore\nprint(make().size, {A}.size)\n",
     "ignore_on_binding": "def scale(v):\n    {A} = 10  # pyrefact: ignore\n    y = v * {A}\n    return y + {A}\nprint(scale(2))\n",
+    "read_before_def": "{B}_ = {A}\ndef {A}(v):\n    return 'mine'\nprint({A}([2, 1]), {B}_ is {A})\n",
+    "read_before_def_func": "import builtins\ndef early():\n    return {A}([2, 1])\nfirst = early() if hasattr(builtins, '{A}') else None\ndef {A}(v):\n    return 'mine'\nprint(first, early())\n",
     "keyword_arg": "def f({A}=1):\n    return {A}\nprint(f({A}=2))\n",
     "func_name": "def {A}(v):\n    return v\nprint({A}(2))\n",
     "func_name_kw": "def {A}(v):\n    return v\n{B} = 3\nprint({A}(v={B}))\n",
@@ -652,12 +654,22 @@ def run_program(src: str):
         code = compile(src, "<prog>", "exec")
     except SyntaxError as e:
         return ("", "SyntaxError")
+    import signal
+
+    def on_alarm(signum, frame):
+        raise TimeoutError("program runs too long")
+
+    old = signal.signal(signal.SIGALRM, on_alarm)
+    signal.setitimer(signal.ITIMER_REAL, 3.0)
     try:
         with contextlib.redirect_stdout(out), contextlib.redirect_stderr(io.StringIO()):
             exec(code, {"__name__": "__main__"})
         return (out.getvalue(), None)
     except BaseException as e:  # noqa
         return (out.getvalue(), type(e).__name__)
+    finally:
+        signal.setitimer(signal.ITIMER_REAL, 0)
+        signal.signal(signal.SIGALRM, old)
 
 
 def _unmangle(name: str, cls) -> str:
@@ -773,8 +785,10 @@ def oracle_selftest():
             raise RuntimeError(f"binding-structure oracle self-test failed: {before!r} / {after!r}: {d!r}")
 
 
-def oracle(mods, rule: str, src: str, structure: bool):
-    """run one renaming rule on a closed program; None or a failure description"""
+def oracle(mods, rule: str, src: str, structure: bool, execute: bool = True):
+    """run one renaming rule on a closed program; None or a failure description
+    (execute=False: generated modules are not closed programs and may not terminate; only the binding
+    structure is compared)"""
     fixes = mods["fixes"]
     mods["core"].parse.cache_clear()
     try:
@@ -793,9 +807,10 @@ def oracle(mods, rule: str, src: str, structure: bool):
         return dict(problem=f"{rule} raised {type(e).__name__}: {e}", output=None)
     if new == src:
         return None
-    a, b = run_program(src), run_program(new)
-    if a != b:
-        return dict(problem=f"behaviour differs: {a!r} -> {b!r}", output=new)
+    if execute:
+        a, b = run_program(src), run_program(new)
+        if a != b:
+            return dict(problem=f"behaviour differs: {a!r} -> {b!r}", output=new)
     if structure:
         d = binding_structure_diff(src, new)
         if d:
@@ -1158,7 +1173,7 @@ def check(run: common.Run):
     for p, (kind, payload) in zip(files, meta):
         rc, out = results[p]
         if kind == "naming-block":
-            lists = re.findall(r"=\s*(\[[^\]]*\]|nil)\s*:\s*list nat", out)
+            lists = re.findall(r"=\s*(\[[^\]]*\]|nil)\s*:\s*list N", out)
             if rc != 0 or len(lists) != len(TAGS):
                 disagreements.append(("eval-failed", p.name, out[-1500:]))
                 continue
@@ -1241,7 +1256,7 @@ def check(run: common.Run):
                 if f:
                     found.append({"kind": "property-oracle", "site": "style." + d[1]["function"], **f})
             elif d[0] in ("align", "uses") and "source" in d[1]:
-                f = oracle(mods, "align", d[1]["source"], structure=True)
+                f = oracle(mods, "align", d[1]["source"], structure=True, execute=False)
                 if f:
                     found.append({"kind": "property-oracle", "site": "fixes.align_variable_names_with_convention",
                                   "source": d[1]["source"], **f})
